@@ -120,6 +120,31 @@ def clause1_pop(ctx, P):
         ctx.ob("C03.1 R-LOOP", g, "sweep-is-unconditional", ok,
                "%s can return without walking every slot of the routing table (an early exit leaves entries of a leaving peer behind, "
                "to be answered later through a dangling peer pointer)" % g.srcname)
+    # inside the walk, the only conditions between the loop header and the removal are "the slot is occupied" and (for the
+    # sweep on behalf of a leaving requester) "the entry belongs to the leaver": anything else skips occupied slots
+    for key in ("router.c:remove_peer_from_routing_table", "router.c:remove_routing_info_from_peer"):
+        g = P.fn(key)
+        loops = g.loops()
+        if len(loops) != 1:
+            continue
+        (h, body), = loops.items()
+        for c in g.calls("hashtable_remove_route_table"):
+            if c.block not in body:
+                continue
+            extra = []
+            for (atom, pol) in Q.guards_of(P, g, c.block):
+                if atom[0] == "cmp" and atom[2][0] == "phi" and atom[1] in ("ult", "uge"):
+                    continue   # the loop condition
+                if atom[0] == "cmp" and Q.mentions(atom, lambda x: x[0] == "field" and x[2] == "struct.hashtable_string" and x[3] == "key") and \
+                        ("const", -1) in (atom[2], atom[3]) or (atom[0] == "cmp" and ("null",) in (atom[2], atom[3]) and
+                                                                Q.mentions(atom, lambda x: x[0] == "field" and x[3] == "key")):
+                    continue   # slot occupied
+                if atom[0] == "cmp" and Q.mentions(atom, lambda x: x[0] == "field" and x[2] == "struct.routing_request" and x[3] == "requesting_peer"):
+                    continue   # entry of the leaver
+                extra.append((atom, pol))
+            ctx.ob("C03.1 R-LOOP", g, Q.ordinal_site(g, c, P) + ":visits-every-occupied-slot", not extra,
+                   "the walk over the routing table skips occupied slots: the removal is additionally guarded by %s (the hop word "
+                   "belongs to the HOME bucket of a key, not to the slot that stores it)" % "; ".join(fmt_atom(a, p) for a, p in extra[:3]))
     if n < 3:
         raise AnalysisBroken("expected >= 3 value-yielding removals from the routing table, found %d" % n)
     ctx.floor("C03.1 R-OWN", 3)
@@ -314,6 +339,23 @@ def clause4_route(ctx, P):
         b = Q.is_field_load(tb, "struct.peer", "routing_table")
         ok = b is not None and Q.is_field_load(b, "struct.routing_request", "owner_peer") is not None
         ctx.ob("C03.4 R-PAIR", th, Q.ordinal_site(th, c, P), ok, "expiry removes from %s, expected request->owner_peer->routing_table" % fmt_term(tb))
+    # every access to a routing table goes to the table of the OWNER of the addressed element: the entry is registered there,
+    # so it can only be found, completed or reverted there
+    nacc = 0
+    for f in P.own_functions():
+        for c in f.calls(("hashtable_remove_route_table", "hashtable_put_route_table", "hashtable_get_route_table")):
+            tb = P.term(f, c.a[0])
+            b = Q.is_field_load(tb, "struct.peer", "routing_table")
+            nacc += 1
+            okb = b is not None and (b[0] == "param" or Q.is_field_load(b, "struct.element", "peer") is not None or
+                                     Q.is_field_load(b, "struct.routing_request", "owner_peer") is not None)
+            if b is None and tb[0] in ("phi", "param"):
+                okb = True   # table pointer handed in / loop-carried inside the sweeps; their callers are checked here too
+            ctx.ob("C03.4 R-PAIR", f, Q.ordinal_site(f, c, P) + ":owners-table", okb,
+                   "routing table accessed through %s: entries live in the table of the element's owner (e->peer, request->owner_peer, "
+                   "or the peer handed to the reply handler / sweeps)" % fmt_term(tb))
+    if nacc < 5:
+        raise AnalysisBroken("routing table accesses found: %d" % nacc)
     # owner_peer / requesting_peer written once, in the allocator
     for fld in ("owner_peer", "requesting_peer", "origin_request_id"):
         sts = Q.field_stores(P, "struct.routing_request", fld)
